@@ -329,6 +329,9 @@ def defect_case(rng, fid):
                 op = ["set", key, ["values", [_val(rng, 0.3) for _ in asg]]]
             except U.Inadmissible:
                 op = None
+        elif fid == "C04-N07" and n >= 2 and shape[0] >= 2 and shape[0] > shape[1]:
+            es = [["l", rng.sample(range(shape[0]), shape[0])]] + [["s", None, None, None] for _ in shape[1:]]
+            op = ["set", ["region", es], ["values", [_val(rng, 0.3) for _ in range(cells)]]]
         elif fid == "C04-N05" and f and n < 3:
             es = [["s", 0, d, None] for d in shape] + [["i", 1]]
             op = ["set", ["region", es], ["values", [_val(rng, 0.3) for _ in range(cells)]]]
@@ -711,6 +714,9 @@ WITNESS_ARGS = {
     "C04-N06": {"start": _S23, "classes": ["sparse"],
                 "ops": [["set", ["subs", [[2, 0]]], ["scalar", 4]],
                         ["set", ["region", [["i", -1], ["s", 0, 2, None]]], ["values", [7, 8]]]]},
+    "C04-N07": {"start": {"shape": [3, 2], "data": [2, 0, 0, 0, 1, 3], "subs": [[1, 1], [0, 0], [2, 1]], "vals": [1, 2, 3]},
+                "classes": ["sparse"],
+                "ops": [["set", ["region", [["l", [0, 1, 2]], ["s", None, None, None]]], ["values", [7, 0, 0, 8, 9, 0]]]]},
     "A-17": {"start": _S23, "classes": ["dense"], "malformed": True, "ops": [["set", ["lin", 6], ["scalar", 9]]]},
 }
 WITNESSES = {fid: _witness(a) for fid, a in WITNESS_ARGS.items()}
